@@ -87,6 +87,20 @@ func (c *Channel) VerifTimers() (rekeyPending, handshakePending bool) {
 	return c.rekeyTimer.IsPending(), c.handshakeTimer.IsPending()
 }
 
+// VerifTimerCallbackRunning reports whether a rekey or handshake timer callback is executing (or waiting to) right now:
+// while it is, the timer reads as not pending although the channel is about to act.
+func (c *Channel) VerifTimerCallbackRunning() bool {
+	busy := false
+	for _, t := range []*Timer{c.rekeyTimer, c.handshakeTimer} {
+		if t.runMu.TryLock() {
+			t.runMu.Unlock()
+		} else {
+			busy = true
+		}
+	}
+	return busy
+}
+
 // VerifSlot describes one of the channel's session slots.
 type VerifSlot struct {
 	Occupied bool
